@@ -42,7 +42,7 @@ C05 line protocol.  One line = one whole case.
             (the destination appears just before that call)
 
   Output: `<first save> | <retry>` of `runScript`, each half
-  out=<ok|body|os:<errno>> calls=<n> dest=<-|mode:hex> part=<-|mode:hex> tr=<the successful events with an effect>
+  out=<ok|body|os:<errno>> calls=<n> dest=<-|mode:hex> part=<-|mode:hex> obs=<what a recorder of its calls observes, in the tokens of protocol 1>
 -/
 namespace C05.Driver
 open BV C04 C05
@@ -126,13 +126,20 @@ def showEv : Ev → String
   | .unlinkDest => "D"
   | .unknown => "?"
 
-/-- the successful events with an effect, in order (probes and `fdopen` are `noop`s: not shown) -/
-def showTr (t : List Ev) : String :=
-  let l := (t.filter (fun e => !(e matches Ev.noop))).map showEv
-  if l.isEmpty then "-" else ",".intercalate l
+def b01 (b : Bool) : String := if b then "1" else "0"
+
+def showObs : Obs → String
+  | .ok ev => showEv ev
+  | .fail l i u => s!"F{b01 l}{b01 i}{b01 u}"
+  | .failClosed l => s!"X{b01 l}"
+  | .appear => "A"
+
+/-- what a recorder of the transliteration's calls observes (same tokens as the observed-trace protocol) -/
+def showObsList (t : List Obs) : String :=
+  if t.isEmpty then "-" else ",".intercalate (t.map showObs)
 
 def showRes (r : Outcome × M) : String :=
-  s!"out={showOut r.1} calls={r.2.n} dest={showFile r.2.fs r.2.fs.dir.dest} part={showFile r.2.fs r.2.fs.dir.part} tr={showTr r.2.tr}"
+  s!"out={showOut r.1} calls={r.2.n} dest={showFile r.2.fs r.2.fs.dir.dest} part={showFile r.2.fs r.2.fs.dir.part} obs={showObsList r.2.obs}"
 
 def handleRef (ws : List String) : String :=
   match ws with
